@@ -1,4 +1,5 @@
 """C19 (life): thresholds and limits of the hand-managed classes used as parameters of the heap programs."""
+import re
 RULES = [
     ("life_theta_RESIZE_THRESHOLD", "theta/include/theta_update_sketch_base.hpp", "RESIZE_THRESHOLD", "rat"),
     ("life_theta_REBUILD_THRESHOLD", "theta/include/theta_update_sketch_base.hpp", "REBUILD_THRESHOLD", "rat"),
@@ -15,5 +16,43 @@ RULES = [
 ]
 
 
+def kll_move_assign_shape(repo, T):
+    """Where `kll_sketch::operator=(kll_sketch&&)` releases cached sorted views.  Recognised statement shapes:
+         0  pinned:       swaps ...; reset_sorted_view();                               (own view, after the swaps)
+         1  intermediate: reset_sorted_view(); swaps ...                                (own view, before the swaps)
+         2  repaired:     reset_sorted_view(); other.reset_sorted_view(); swaps ...     (own view and the source's view)
+       anything else is a translation failure."""
+    rel = "kll/include/kll_sketch_impl.hpp"
+    src = T.strip_comments(T.read(repo, rel))
+    m = re.search(r"operator=\(kll_sketch&&\s+other\)\s*\{(.*?)\n\}", src, flags=re.S)
+    if not m:
+        T.fail("kll move assignment not found in %s" % rel)
+        return 0
+    stmts = [x.strip() for x in m.group(1).split(";") if x.strip()]
+    swaps = [x for x in stmts if re.fullmatch(r"std::swap\((\w+),\s*other\.\1\)", x)]
+    rest = [x for x in stmts if x not in swaps]
+    members = sorted(re.fullmatch(r"std::swap\((\w+),.*", x).group(1) for x in swaps)
+    expect = sorted(["comparator_", "allocator_", "k_", "m_", "min_k_", "num_levels_", "is_level_zero_sorted_", "n_", "levels_",
+                     "items_", "items_size_", "min_item_", "max_item_"])
+    if members != expect:
+        T.fail("kll move assignment swaps %s, expected %s" % (members, expect))
+        return 0
+    first_swap = min(stmts.index(x) for x in swaps)
+    last_swap = max(stmts.index(x) for x in swaps)
+    if rest == ["reset_sorted_view()", "return *this"] and stmts.index("reset_sorted_view()") > last_swap:
+        return 0
+    if rest == ["reset_sorted_view()", "return *this"] and stmts.index("reset_sorted_view()") < first_swap:
+        return 1
+    if rest == ["reset_sorted_view()", "other.reset_sorted_view()", "return *this"] and stmts.index("other.reset_sorted_view()") < first_swap:
+        return 2
+    T.fail("kll move assignment has an unrecognised shape: %s" % rest)
+    return 0
+
+
 def generate(repo, T):
-    return {"Life.lean": T.gen_consts(repo, RULES)}
+    body = T.gen_consts(repo, RULES)
+    shape = kll_move_assign_shape(repo, T)
+    extra = ("/-- statement shape of `kll_sketch::operator=(kll_sketch&&)` (0 pinned, 1 own view released first, 2 own and the\n"
+             "    source's view released first), read from the current header -/\n"
+             "def life_kll_MOVE_ASSIGN_SHAPE : Nat := %d\n\nend DSGen" % shape)
+    return {"Life.lean": body.replace("end DSGen", extra)}
